@@ -7,7 +7,7 @@ EXTENDS Cli, Json, SequencesExt
 CONSTANTS N, EMIT
 VARIABLE s
 Init == s \in {[st |-> <<>>, label |-> lb, out |-> o, missing |-> FALSE] : lb \in {"none", "lower", "Upper"}, o \in {"none", "lower", "Upper"}}
-Next == Len(s.st) < N /\ \E k \in Kinds : s' = [s EXCEPT !.st = Append(@, k)]
+Next == Len(s.st) < N /\ \E k \in (IF s.st = <<>> THEN FirstKinds ELSE Kinds) : s' = [s EXCEPT !.st = Append(@, k)]
 Spec == Init /\ [][Next]_s
 Forms == RunForms \cup LintForms \cup InfoForms
 LintNeverRuns == \A f \in LintForms : ~Status(f, s).ran
